@@ -1685,3 +1685,82 @@ pub fn hunt(args: &Args) -> i32 {
     eprintln!("hunt: tried {tried} programs");
     0
 }
+
+// ---- in-process differential run (no fork): the Miri stage of C02 / C04 / C06 -------------------
+
+pub fn mdiff(args: &Args) -> i32 {
+    let prop = args.get("prop").unwrap_or("C04").to_string();
+    let corpus = load_corpus(&args.corpus);
+    let mut t = Tally::new(&prop, &args.replay_dir);
+    let start = std::time::Instant::now();
+    let backends: Vec<Backend> = match prop.as_str() {
+        "C04" => vec![Backend::Inplace],
+        "C02" => vec![Backend::BcInt],
+        _ => vec![Backend::Inplace, Backend::IrInt, Backend::BcInt],
+    };
+    let mut done = 0u64;
+    let mut idx = args.shard;
+    while done < args.count && idx < 1_000_000 {
+        let mut rng = Rng::derive(args.seed, fnv64(prop.as_bytes()) ^ 0x3171, idx);
+        idx += args.nshards;
+        // small programs only: the interpreter under the UB checker is four orders of magnitude slower
+        let case = if idx % 3 == 0 && !corpus.items.is_empty() {
+            let it = rng.pick(&corpus.items).clone();
+            if it.0.len() > 200 {
+                continue;
+            }
+            Case { code: it.0, bits: *rng.pick(&[8u32, 16, 32, 64]), family: Family::Corpus, fixed_input: it.1 }
+        } else {
+            let bits = *rng.pick(&[8u32, 16, 32, 64]);
+            let code = match rng.below(4) {
+                0 => gen::grammar(&mut rng, 30),
+                1 => gen::scan(&mut rng),
+                2 => gen::roaming(&mut rng, 700),
+                _ => gen::structured(&mut rng, bits <= 16, 40),
+            };
+            Case { code, bits, family: Family::Structured, fixed_input: None }
+        };
+        let input: Vec<u8> = case.fixed_input.clone().unwrap_or_else(|| vec![2, 1, 3]);
+        let sp = match spec::run(&case.code, &input, SpecOpts { bits: case.bits, step_cap: 3000, event_cap: EV_CAP, detect_cycles: false }) {
+            Some(s) if s.status == Status::Halted => s,
+            _ => continue,
+        };
+        done += 1;
+        t.inc("programs", 1);
+        for &b in &backends {
+            for level in [0u32, 2] {
+                if b == Backend::Inplace && level != 0 {
+                    continue;
+                }
+                let job = Job { cfg: Cfg { backend: b, bits: case.bits, level, mode: Mode::Limited(10_000_000) }, io: Io::plain(&input) };
+                let slot = &mut sys::shared().slots[0];
+                slot.state = 0;
+                slot.flags = 0;
+                slot.n_events = 0;
+                slot.ev_hash = 0xcbf29ce484222325;
+                slot.aux = [0; 8];
+                crate::run::run_cfg(&job.cfg, &case.code, &job.io, slot, &mut |_| {});
+                let ob = engine::snapshot_pub(0, engine::End::Normal);
+                t.inc("evaluations", 1);
+                t.inc("canonical_steps", sp.steps);
+                match judge(&job, &sp, &ob) {
+                    Verdict::Held => t.inc("held", 1),
+                    Verdict::Inconclusive(w) => t.inconclusive.push(w),
+                    Verdict::Violated(why) => {
+                        t.inc("violated", 1);
+                        t.violation(&format!("{}|mdiff", b.name()), job_json(&case.code, &input, &job, 0).s("why", &why));
+                    }
+                }
+            }
+        }
+        if sp.loop_iters >= 1 && sp.total_events >= 1 {
+            t.distinct.insert(fnv64(format!("{}|{}", case.code, case.bits).as_bytes()));
+        }
+    }
+    t.write(&args.out, &[("wall_s".to_string(), format!("{:.2}", start.elapsed().as_secs_f64()))]);
+    if t.violations.is_empty() {
+        0
+    } else {
+        1
+    }
+}
